@@ -31,8 +31,8 @@ ID = 'C15'
 LEVEL = 'exploration'
 ENGINE = 'E3'
 EXHAUSTIVE = True
-RULE = ('compare / identity: every state of the liquid lattice (T x log-spaced p from the higher of the two saturation '
-        'pressures to 100 MPa) and of the steam lattice (T x log-spaced p from 100 Pa to the lowest of the two '
+RULE = ('compare / identity: every state of the liquid lattice (T x the lower of the two saturation pressures, then log-spaced p from the higher one '
+        'to 100 MPa; at lattice states on a range limit the identity is evaluated a second time with one-sided differences) and of the steam lattice (T x log-spaced p from 100 Pa to the lowest of the two '
         'formulations\' upper limits); saturation line: every 0.1 degC of [0.01, 373.946] (compare) and [0.01, 374.15] '
         '(inverse); bounds flag: (T lattice + two outside temperatures + ulp neighbours of 0.01, 350, 374.15, 590, 800) '
         'x (p lattice to 120 MPa + ulp neighbours of 0, 100 MPa, sat(T), b23p(T)) for cowat and supst, the T set for '
